@@ -413,6 +413,10 @@ func (db *RockDB) HDel(ts int64, key []byte, args ...[]byte) (int64, error) {
 	if err != nil {
 		return 0, err
 	}
+	if keyInfo.IsNotExistOrExpired() {
+		// an expired hash is dead, nothing can be removed from it
+		return 0, nil
+	}
 	table := keyInfo.Table
 	rk := keyInfo.VerKey
 	oldh := keyInfo.OldHeader
